@@ -74,7 +74,10 @@ VARIABLES backend, mode, S, D, h, t, dev, rows, bad, k, out, ix
 vars == <<backend, mode, S, D, h, t, dev, rows, bad, k, out, ix>>
 
 (* index labellings of the pandas frame; rows 1 and 2 share a label in the "dup" kinds *)
-IxKinds(b, n) == IF b = "pandas" /\ n >= 2 THEN {"unique", "dup", "multi", "multidup"} ELSE {"unique"}
+(* ... and COLUMN labellings: the columns a, b named by strings (all kinds above), by the integers 0, 1 ("intcols") *)
+(* or by tuples, i.e. two-level MultiIndex columns ("tuplecols"); nothing in the design reads the labels either     *)
+IxKinds(b, n) == IF b = "pandas" THEN (IF n >= 2 THEN {"unique", "dup", "multi", "multidup"} ELSE {"unique"}) \cup {"intcols", "tuplecols"}
+                 ELSE {"unique"}
 LabelOf(ixk, i) == IF ixk \in {"dup", "multidup"} THEN (i + 1) \div 2 ELSE i + 10
 DedupByLabel(ixk, rws) == {i \in rws : ~\E j \in rws : j < i /\ LabelOf(ixk, j) = LabelOf(ixk, i)}
 
